@@ -338,6 +338,80 @@ def run_cache_case(ctx, d):
     del _KEEP[:-6]
 
 
+def make_relu_model(tf, shape, seed):
+    """ReLU *layers* / Activation('relu') layers (no weights) and a fused relu (added after a seeded clone that shared
+    the weight-less layers with the user's model was missed)"""
+    rng = np.random.default_rng(seed)
+    inp = tf.keras.Input(tuple(shape))
+    f = tf.keras.layers.Flatten()(inp) if len(shape) > 1 else inp
+    h = tf.keras.layers.Dense(5)(f)
+    h = tf.keras.layers.ReLU()(h)
+    h = tf.keras.layers.Dense(4)(h)
+    h = tf.keras.layers.Activation("relu")(h)
+    h = tf.keras.layers.Dense(3, activation="relu")(h)
+    out = tf.keras.layers.Dense(2)(h)
+    m = tf.keras.Model(inp, out)
+    for v in m.trainable_variables:
+        v.assign((rng.integers(-4, 5, size=v.shape) / 4.0).astype(np.float32))
+    return m
+
+
+def run_override_case(ctx, d):
+    """the user's model (and explainers made before / after on it) back-propagates as an untouched twin does, whatever
+    DeconvNet / GuidedBackprop objects were built on it in between; new batch shapes force new traces"""
+    import tensorflow as tf
+    from xplique import attributions as A
+    rng = np.random.default_rng(d["case_seed"])
+    shape = tuple(d["shape"])
+    model = make_relu_model(tf, shape, d["model_seed"])
+    twin = make_relu_model(tf, shape, d["model_seed"])          # never given to xplique
+
+    def data(n):
+        x = (rng.integers(-4, 5, size=(n,) + shape) / 4.0).astype(np.float32) + 0.125
+        y = np.eye(2, dtype=np.float32)[rng.integers(2, size=n)]
+        return x, y
+
+    def user_grad(m, x, y):
+        xt = tf.constant(x)
+        with tf.GradientTape() as t:
+            t.watch(xt)
+            s = tf.reduce_sum(m(xt) * y, -1)
+        return t.gradient(s, xt).numpy()
+
+    objs = {}
+    sal_before = A.Saliency(model, batch_size=d["bs"])
+    x0, y0 = data(d["Ns"][0])
+    sal_before(x0, y0)
+    for step, n in zip(d["steps"], d["Ns"][1:]):
+        x, y = data(n)
+        dd = dict(d, step=step, n=n)
+
+        def do():
+            if step not in objs:
+                objs[step] = getattr(A, step)(model, batch_size=d["bs"])
+            return objs[step](x, y).numpy()
+        ok, got = ctx.impl_call(dd, do)
+        if not ok:
+            continue
+        want = getattr(A, step)(twin, batch_size=d["bs"])(x, y).numpy()
+        ctx.check_prop("explainer-unaffected-by-later-explainers", got.shape == want.shape and bool(np.allclose(got, want, rtol=1e-5, atol=1e-6)),
+                       dd, {"got": got.reshape(-1)[:6].tolist(), "want": want.reshape(-1)[:6].tolist()}, signature="override:" + step)
+        gm, gt = user_grad(model, x, y), user_grad(twin, x, y)
+        ctx.check_prop("user-model-backprop-unchanged", bool(np.allclose(gm, gt, rtol=1e-5, atol=1e-6)), dd,
+                       {"got": gm.reshape(-1)[:6].tolist(), "want": gt.reshape(-1)[:6].tolist()})
+    xn, yn = data(d["N_final"])
+    for nm, ex in (("Saliency-created-before", sal_before), ("Saliency-created-after", A.Saliency(model, batch_size=d["bs"])),
+                   ("GradientInput-created-after", A.GradientInput(model, batch_size=d["bs"]))):
+        cls = A.GradientInput if nm.startswith("GradientInput") else A.Saliency
+        ok, got = ctx.impl_call(dict(d, step=nm), lambda: ex(xn, yn).numpy())
+        if ok:
+            want = cls(twin, batch_size=d["bs"])(xn, yn).numpy()
+            ctx.check_prop("explainer-unaffected-by-other-explainers", bool(np.allclose(got, want, rtol=1e-5, atol=1e-6)), dict(d, step=nm),
+                           {"got": got.reshape(-1)[:6].tolist(), "want": want.reshape(-1)[:6].tolist()}, signature="override:" + nm)
+    ctx.count("override_steps", len(d["steps"]))
+    ctx.case(d, len(set(d["steps"])) >= 2)
+
+
 def gen_cases(ctx):
     rng = ctx.rng
     thorough = ctx.tier == "thorough"
@@ -375,11 +449,19 @@ def gen_cases(ctx):
         steps[1] = "new"
         cases.append({"type": "cache", "steps": steps, "n_constructions": int(rng.integers(3, 9)),
                       "case_seed": int(rng.integers(1 << 31))})
+    shp = [(5,), (4, 3), (3, 4, 2)]
+    for _ in range(reps * 3):
+        k = int(rng.integers(2, 6))
+        steps = [str(rng.choice(["DeconvNet", "GuidedBackprop", "Saliency"])) for _ in range(k)]
+        steps[0], steps[1] = ("DeconvNet", "GuidedBackprop") if rng.random() < 0.5 else ("GuidedBackprop", "DeconvNet")
+        cases.append({"type": "override", "shape": list(shp[int(rng.integers(3))]), "model_seed": int(rng.integers(50)),
+                      "steps": steps, "Ns": [int(rng.integers(1, 6)) for _ in range(k + 1)], "N_final": int(rng.integers(6, 9)),
+                      "bs": int(rng.choice([1, 2, 16])), "case_seed": int(rng.integers(1 << 31))})
     return cases
 
 
 def run_case(ctx, d):
-    {"attr": run_attr_case, "metric": run_metric_case, "cache": run_cache_case}[d["type"]](ctx, d)
+    {"attr": run_attr_case, "metric": run_metric_case, "cache": run_cache_case, "override": run_override_case}[d["type"]](ctx, d)
 
 
 def run(ctx):
